@@ -322,7 +322,7 @@ Definition spec_c11 (c : cwcase) : list nat :=
       | [] => []
       | lst :: _ =>
           let so := st_so lst in
-          let drained := (so_dc so =? so_wc so) && (so_ds so =? so_ws so) in
+          let drained := match m with ME2E => (so_dc so =? so_wc so) && (so_ds so =? so_ws so) | _ => true end in
           if faulty steps || negb drained then []
           else
             (if (match o_pending (st_co lst) with [] => true | _ => false end)
